@@ -62,7 +62,9 @@ type Lexer struct {
 // New creates a new lexical analyzer for the EBNF language.
 // EBNF (Extended Backus-Naur Form) is used to define context-free grammars and their corresponding languages.
 func New(filename string, src io.Reader) (*Lexer, error) {
-	in, err := input.New(filename, src, bufferSize)
+	// The input buffer reports the end of input one character early and cannot re-read a retracted last character.
+	// Terminating the source with a newline guarantees that every lexeme is followed by at least one more character.
+	in, err := input.New(filename, &terminatedReader{src: src}, bufferSize)
 	if err != nil {
 		return nil, err
 	}
@@ -72,6 +74,47 @@ func New(filename string, src io.Reader) (*Lexer, error) {
 	}, nil
 }
 
+// terminatedReader reads from src, always filling the given buffer as far as the source allows
+// (the input buffer takes a short read for the end of input), and appends a final newline to the source.
+type terminatedReader struct {
+	src        io.Reader
+	exhausted  bool // src has returned io.EOF
+	terminated bool // the final newline has been delivered
+}
+
+func (r *terminatedReader) Read(p []byte) (int, error) {
+	n := 0
+	for empty := 0; n < len(p); {
+		if r.exhausted {
+			if !r.terminated {
+				p[n] = '\n'
+				n++
+				r.terminated = true
+			}
+			break
+		}
+
+		m, err := r.src.Read(p[n:])
+		n += m
+
+		if errors.Is(err, io.EOF) {
+			r.exhausted = true
+		} else if err != nil {
+			return n, err
+		} else if m == 0 {
+			if empty++; empty >= 100 {
+				return n, io.ErrNoProgress
+			}
+		}
+	}
+
+	if n == 0 && len(p) > 0 {
+		return 0, io.EOF
+	}
+
+	return n, nil
+}
+
 // NextToken scans the input stream until it recognizes a valid token, which it then returns.
 // If the end of the input is reached, it returns an io.EOF error.
 func (l *Lexer) NextToken() (lexer.Token, error) {
@@ -79,16 +122,23 @@ func (l *Lexer) NextToken() (lexer.Token, error) {
 		// Read the next character from the input stream.
 		r, err := l.in.Next()
 		if err != nil {
-			return lexer.Token{}, err
+			if !errors.Is(err, io.EOF) || curr == 0 {
+				return lexer.Token{}, err
+			}
+
+			// The input ended inside a lexeme. The pending lexeme is evaluated before the end of input is reported.
+			next = errorState
+		} else {
+			// Keep running the DFA through the input symbols.
+			next = advanceDFA(curr, r)
+
+			if next == errorState {
+				// Retract one character, as the last read character did not belong to the current token.
+				l.in.Retract()
+			}
 		}
 
-		// Keep running the DFA through the input symbols.
-		next = advanceDFA(curr, r)
-
 		if next == errorState {
-			// Retract one character, as the last read character did not belong to the current token.
-			l.in.Retract()
-
 			// Evaluate the final state of the DFA.
 			token := l.evalDFA(curr)
 
